@@ -2,10 +2,13 @@
    Statements only; every proof is [exact <lemma>].  [md5] is universally quantified
    (a Section variable in Model/Rmcp.v), the only fact used about it is that a digest
    has 16 bytes, and only where a theorem says so. *)
-From Coq Require Import NArith List.
-From PyIpmi Require Import Lib.Res Lib.Bytes Model.Rmcp Proofs.RmcpProofs.
+From Coq Require Import String.
+From Coq Require Import NArith List Lia.
+From PyIpmi Require Import Lib.Res Lib.Bytes Model.Codec Gen.Layouts Model.Ipmb Model.Rmcp Model.Wire
+  Proofs.CodecProofs Proofs.IpmbProofs Proofs.RmcpProofs Proofs.WireProofs.
 Import ListNotations.
 Open Scope N_scope.
+Open Scope list_scope.
 
 (* Rmcp._send_ipmi_msg, for every session state with an implemented authentication type,
    32-bit id and sequence number, password of at most 16 bytes, payload of at most 255
@@ -109,6 +112,85 @@ Theorem C05_pong_accept_iff : forall sdu i o e x,
   asf_pong_unpack sdu = Ok (i, o, e, x) <-> pong_spec sdu i o e x.
 Proof. exact pong_accept_iff. Qed.
 Print Assumptions C05_pong_accept_iff.
+
+(* END TO END across the three layers (C01 codec over the regenerated registry, C03 IPMB
+   frame, C05 datagram): for EVERY registered message m, every in-range assignment e, every
+   in-range IPMB header h, every session state covered by C05_layout, whenever the IPMB frame
+   fits the length byte: the datagram handed to sendto (wire_send = encode_message ->
+   encode_ipmb_msg -> IpmiMsg.pack -> RmcpMsg.pack), unwrapped by an independent receiver
+   (wire_recv = RMCP header -> session unwrap with the length check -> IPMB request header ->
+   decode by m's layout), yields exactly (h, e): the field values, netfn / command / LUNs /
+   addresses / IPMB sequence number, and the session header carries the type, the id and the
+   sequence number the session holds after the call. *)
+Theorem C05_wire_end_to_end : forall md5, (forall x, length (md5 x) = 16%nat) ->
+  forall m e h s a pw rseq bs,
+  In m registry -> in_range (m_layout m) e -> hdr_in_range h ->
+  s_auth s = Some a -> implemented a -> s_sid s < 0x100000000 -> s_seq s < 0x100000000 ->
+  (a <> 0 -> s_pw s = Some pw /\ (length pw <= 16)%nat) -> (length pw <= 16)%nat -> rseq < 256 ->
+  encode (m_layout m) e = Ok bs -> (7 + length bs <= 255)%nat ->
+  let s' := after_pack s in
+  exists dg,
+    wire_send md5 (m_layout m) e h (Some s) rseq = (Some s', rmcp_seq_next rseq, Ok dg)
+    /\ wire_recv (m_layout m) dg = Ok (h, e)
+    /\ nth 4 dg 0 = a
+    /\ le_val (firstn 4 (skipn 5 dg)) = s_seq s'
+    /\ le_val (firstn 4 (skipn 9 dg)) = s_sid s
+    /\ s_seq s' = (if s_act s then (if s_seq s =? 0xffffffff then 1 else s_seq s + 1) else s_seq s).
+Proof. exact wire_end_to_end. Qed.
+Print Assumptions C05_wire_end_to_end.
+
+Theorem C05_wire_end_to_end_nosession : forall md5, (forall x, length (md5 x) = 16%nat) ->
+  forall m e h rseq bs,
+  In m registry -> in_range (m_layout m) e -> hdr_in_range h -> rseq < 256 ->
+  encode (m_layout m) e = Ok bs -> (7 + length bs <= 255)%nat ->
+  exists dg,
+    wire_send md5 (m_layout m) e h None rseq = (None, rmcp_seq_next rseq, Ok dg)
+    /\ wire_recv (m_layout m) dg = Ok (h, e)
+    /\ nth 4 dg 0 = 0 /\ le_val (firstn 4 (skipn 5 dg)) = 0 /\ le_val (firstn 4 (skipn 9 dg)) = 0.
+Proof. exact wire_end_to_end_nosession. Qed.
+Print Assumptions C05_wire_end_to_end_nosession.
+
+(* response direction: a reply datagram in the specified format around ANY six IPMB header
+   bytes, the encoded response values and a checksum byte is turned by the client's chain
+   (unwrap with either quirk setting, rx_data[6:-1], decode by the response layout) into
+   exactly those values.  (That the header bytes answer the request is C03/C04's filter.) *)
+Theorem C05_wire_response : forall md5, (forall x, length (md5 x) = 16%nat) ->
+  forall r e bs hd c q rseq a seq sid pw,
+  In r registry -> in_range (m_layout r) e -> encode (m_layout r) e = Ok bs ->
+  length hd = 6%nat -> (7 + length bs <= 255)%nat ->
+  implemented a -> (length pw <= 16)%nat ->
+  wire_recv_rsp q (m_layout r) (spec_dgram md5 rseq a seq sid pw (hd ++ bs ++ [c])%list) = Ok e.
+Proof. exact wire_response. Qed.
+Print Assumptions C05_wire_response.
+
+(* the end-to-end theorem instantiated: Set Watchdog Timer with non-trivial bit fields and a
+   16-bit countdown, to LUN 2 of 0x20 from 0x81 with IPMB sequence number 37, inside an
+   activated MD5 session at number 0xffffffff: hypotheses hold, and the run computes *)
+Example C05_wire_example :
+  let md5 := fun _ : list N => repeat 0xaa 16 in
+  let e := [VBits [4; 0; 1; 1]; VBits [3; 0; 2; 0]; VInt 0x7f; VInt 0x3e; VInt 0xbeef] in
+  let h := mkHdr 0x20 2 0x81 0 37 6 36 in
+  let s := mkSess (Some 2) 0x01020304 0xffffffff true (Some [0x61; 0x62]) in
+  match find (fun x => String.eqb (m_name x) "SetWatchdogTimerReq") registry with
+  | None => False
+  | Some m =>
+    In m registry /\ in_range (m_layout m) e /\ hdr_in_range h /\
+    encode (m_layout m) e = Ok [0xc4; 0x23; 0x7f; 0x3e; 0xef; 0xbe] /\
+    (let '(s', _, r) := wire_send md5 (m_layout m) e h (Some s) 0xff in
+     s_seq (match s' with Some x => x | None => s end) = 1 /\
+     match r with Ok dg => wire_recv (m_layout m) dg = Ok (h, e) /\ length dg = 43%nat | Err _ => False end)
+  end.
+Proof.
+  cbv zeta.
+  destruct (find (fun x => String.eqb (m_name x) "SetWatchdogTimerReq") registry) as [m|] eqn:E;
+    [|vm_compute in E; discriminate].
+  split; [apply (find_some _ _ E)|]. vm_compute in E. injection E as <-. cbn [m_layout].
+  split; [|split; [|split]].
+  - cbn. repeat split; try reflexivity; lia.
+  - unfold hdr_in_range. cbn. repeat split; reflexivity.
+  - vm_compute. reflexivity.
+  - vm_compute. repeat split; reflexivity.
+Qed.
 
 (* non-vacuity: an activated MD5 session at sequence number 0xffffffff satisfies the
    hypotheses of C05_layout; its next datagram carries sequence number 1 *)
